@@ -152,6 +152,40 @@ def eachLoop : Nat → Nat → Scanner → Scanner × List Bytes × Bool
 def Scanner.each (s : Scanner) (k : Nat) : Scanner × List Bytes × Bool :=
   eachLoop (s.rem.length + 2) k s
 
+/-! ### the scanner as a state machine over its API (what the driver stream `C16.scanner` executes) -/
+
+inductive Op
+  | next
+  | split
+  | each (k : Nat)
+  | rest
+  /-- `s.Reset(r)` with a reader that delivers `input`, then `tail` -/
+  | reset (input : Bytes) (tail : Tail)
+  deriving Repr
+
+inductive Out
+  | next (o : NextOut)
+  /-- tokens of `Split`/`Each`; the Boolean reports the index panic -/
+  | toks (ts : List Bytes) (panicked : Bool)
+  /-- everything read from the reader returned by `Rest`, and how it ended -/
+  | rest (bytes : Bytes) (tail : Tail)
+  | unit
+  deriving Repr
+
+def Scanner.step (s : Scanner) : Op → Scanner × Out
+  | .next => let (s', o) := s.next; (s', .next o)
+  | .split => let (s', ts, p) := s.split; (s', .toks ts p)
+  | .each k => let (s', ts, p) := s.each k; (s', .toks ts p)
+  | .rest => let (s', b, t) := s.rest; (s', .rest b t)
+  | .reset input tail => (s.reset input tail, .unit)
+
+def Scanner.runOps (s : Scanner) : List Op → Scanner × List Out
+  | [] => (s, [])
+  | op :: ops =>
+    let (s', o) := s.step op
+    let (s'', os) := s'.runOps ops
+    (s'', o :: os)
+
 /-- package function `Split(s)`: pooled scanner, `Reset(strings.NewReader(s))`, `sc.Split()`,
     `sc.Complete()`; third component: did the table lookup panic -/
 def splitP (input : Bytes) : List Bytes × Bool × Bool :=
